@@ -221,6 +221,7 @@ func verifStartH2CBackend(cases map[string]*verifC03Resp) (addr string, stop fun
 }
 
 func TestVerifC03(t *testing.T) {
+	defer func() { *shimPath, *shimWebsockets, *forceHTTP2 = "", false, false }()
 	out := verifOpenOut(t)
 	defer out.close()
 	rng := &verifRng{s: verifSeed()}
@@ -323,6 +324,15 @@ func TestVerifC03(t *testing.T) {
 					c.Undeclared = append(c.Undeclared, [2]string{fmt.Sprintf("X-Undeclared-%d", k), strings.Repeat("u", 60)})
 				}
 			}
+			if i == 5 {
+				// a response larger than any plausible size limit on the way (12 MiB and a bit), with trailers after it
+				c.Method, c.Status, c.Interim, c.BodyLen, c.Framing, c.Chunks = "GET", 200, nil, 12<<20+5, "chunked", []int{1 << 20}
+				c.Declared = [][2]string{{"X-Checksum", "after-twelve-mebibytes"}}
+				c.Undeclared = nil
+				if proto == "h2c" {
+					c.Framing, c.BodyLen = "length", 11<<20+3
+				}
+			}
 			if proto == "h1" && i == 3 {
 				// a response that takes longer than any plausible I/O deadline on the way: 11 s pause in mid-body, trailers after it
 				c.Method, c.Status, c.Interim, c.BodyLen, c.Framing, c.Chunks = "GET", 200, nil, 3000, "chunked", []int{1000, 1000, 1000}
@@ -341,6 +351,7 @@ func TestVerifC03(t *testing.T) {
 			addr, stopBE = verifStartH2CBackend(cases)
 		}
 		*host = addr
+		*forceHTTP2 = proto == "h2c" // the flag, as main() has it
 		hp, err := hostProxy(context.Background(), addr, "", false, proto == "h2c")
 		if err != nil {
 			t.Fatal(err)
